@@ -33,6 +33,26 @@ Proof.
 Qed.
 Print Assumptions C01_roundtrip.
 
+(* ... and the unstructured form exists: for every value of the type there IS an amount of fuel (given
+   explicitly in the proof: linear in the size of the value) for which unstructure returns and structure
+   gives the value back -- the statement above is never vacuous.  [M] bounds how many wrapper types
+   (Optional / NewType / Annotated) the declared attribute types stack directly on top of each other. *)
+Theorem C01_roundtrip_total :
+  forall (E : env) (dvU genS dvS ann : bool) (M : nat),
+    (ann = true -> genS = true) ->
+    (forall p e, e_coerce E p (VAtom p e) = Ok (VAtom p e)) ->
+    (forall c cd, e_class E c = Some cd -> rt_class_ok (mk_cfg genS dvS false false) c cd) ->
+    (forall c cd nm ft, e_class E c = Some cd -> assoc (cd_types cd) nm = Some ft -> maxw ft <= M) -> 2 <= M ->
+    forall (t : ty) (x : val),
+      rt_value E ann x t -> maxw t <= M ->
+      exists n u, unstructure E (mk_cfg true dvU false false) n t x = Ok u /\
+                  structure E (mk_cfg genS dvS false false) n t u = Ok x.
+Proof.
+  intros E dvU genS dvS ann M Hann Hco Henv HM HM2.
+  apply roundtrip_total; [reflexivity | reflexivity | reflexivity | reflexivity | reflexivity | apply mk_cfg_recheck | apply mk_cfg_kw_last | exact Hann | exact Hco | exact Henv | exact HM | exact HM2].
+Qed.
+Print Assumptions C01_roundtrip_total.
+
 (* 2. Class level, any payload value type: both unstructure templates emit every attribute, in order,
       under its name; structuring that dict with handlers that undo the unstructure handlers ON THE
       INSTANCE'S VALUES gives back the same instance, through the detailed, the fast and (via item 3 of
